@@ -48,6 +48,10 @@ type Solver struct {
 	dead    bool
 	slowHook func(time.Duration, SatResult)
 	lastErr string
+	// abstractFP: floating-point arithmetic nodes (add/sub/mul/div) are declared as unconstrained values of their
+	// sort instead of being defined. Every model of the precise formula is a model of the abstraction, so an
+	// "unsat" from an abstracting solver is a sound "unsat"; "sat" means nothing and the precise query decides.
+	abstractFP bool
 }
 
 func NewSolver(kind string, pool *TermPool, timeoutMs int) (*Solver, error) {
@@ -161,7 +165,7 @@ func (s *Solver) define(t *Term) {
 		if _, ok := s.defined[cur.id]; ok {
 			continue
 		}
-		if cur.op == OpVar {
+		if cur.op == OpVar || (s.abstractFP && (cur.op == OpFPAdd || cur.op == OpFPSub || cur.op == OpFPMul || cur.op == OpFPDiv)) {
 			s.send(fmt.Sprintf("(declare-fun %s () %s)", smtName(cur), cur.sort.SMT()))
 		} else {
 			s.send(fmt.Sprintf("(define-fun %s () %s %s)", smtName(cur), cur.sort.SMT(), headSMT(cur, s.ref)))
